@@ -376,3 +376,57 @@ def c04_pool_il_twins(i1: List[int], i2: List[int]) -> int:
     p1 = [[65, 73, 76][concretize(c, 0, 2)] for c in i1]
     p2 = [[65, 73, 76][concretize(c, 0, 2)] for c in i2]
     return _pool2(p1, p2)
+
+
+# ------------------------------------------------------------------ mass limit, symbolic threshold
+_MASS = {71: 57, 65: 71, 83: 87, 75: 128}          # G A S K (integer residue masses), + 18 for water
+
+
+def _int_mass(seq, seq_type='protein'):
+    total = 18
+    for ch in str(seq):
+        total += _MASS[ord(ch)]
+    return total
+
+
+def _min_mw(misc, min_mw):
+    """concrete glycine / alanine-rich protein (three tryptic products of 7, 8 and 6 residues), the mass of a peptide is an
+    exact integer model (sum of residue masses + water); the mass limit is SYMBOLIC: a product is in the digest iff its
+    mass exceeds the limit - for every value of the limit"""
+    text = 'GGGGGGK' + 'AGGSGGGK' + 'GGGGGA'
+    p = [ord(c) for c in text]
+    sites = [7, 15]
+    rec = AminoAcidSeqRecord(mkseq(p), _id='P', transcript_id='T')
+
+    def fake_sites(self, rule, exception=None):
+        return list(sites)
+
+    with patched((AminoAcidSeqRecord, 'find_all_enzymatic_cleave_sites', fake_sites),
+                 (SeqUtils, 'molecular_weight', _int_mass)):
+        got = rec.enzymatic_cleave(rule='trypsin', exception=None, miscleavage=misc, min_mw=min_mw, min_length=6,
+                                   max_length=30, cds_start_nf=True)
+    got = sorted(str(x.seq) for x in got)
+    bounds = [0, 7, 15, len(text)]
+    want = []
+    for a in range(3):
+        for b in range(a + 1, 4):
+            if b - a - 1 > misc:
+                break
+            pep = text[bounds[a]:bounds[b]]
+            if _int_mass(pep) > min_mw:
+                want.append(pep)
+    return OK if got == sorted(want) else -1
+
+
+@cond('C10', bounds='concrete Gly/Ala-rich protein with 3 tryptic products, miscleavage 0..2, mass = exact integer model of the '
+      'residue masses, mass limit an UNBOUNDED symbolic integer', encodes=ENC,
+      stubs=['find_all_enzymatic_cleave_sites -> fixed sites', 'Bio.SeqUtils.molecular_weight -> integer residue-mass sum'],
+      codes={-1: 'the digest differs from: every window within the miscleavage limit whose mass exceeds the mass limit'},
+      timeout=300)
+def c10_digest_min_mw(misc: int, min_mw: int) -> int:
+    """
+    pre: 0 <= misc <= 2
+    post: _ >= 0
+    """
+    from mpgverif.hlib import concretize
+    return _min_mw(concretize(misc, 0, 2), min_mw)
